@@ -269,3 +269,70 @@ Example undecorated_write_line_instance :
   | Ok o' => str_eqb (o_buf o') ([97;32;120;32;121;32;60;110;111;112;101;62;122;10]%N)    (* a x y <nope>z NL *)
   | Err _ => false end = true.
 Proof. vm_compute. split; reflexivity. Qed.
+(* ====================================================================================================================
+   Fourth session: THE LINE-WRITING CLAUSE AT IO LEVEL (Model/OutputIO.v).  "Every line-writing method emits the text followed by
+   exactly one newline."  The eight writing methods of IO - which output, which method there: Model/GateIO.v io_delegate, the
+   table C10 shares - over the output model above.  io_write st m s: the call io.<m>(s) on an I/O in state st.
+   (GateIO is imported before OutputM again so that `exec` stays the program model's.)
+   ==================================================================================================================== *)
+From Clikit Require Import Model.Gate Model.GateIO Model.OutputM Model.OutputIO Proofs.OutputIOLemmas.
+
+(* the line-writing methods of IO are exactly these four (harness: the same four are what reflection finds ending the line) *)
+Theorem io_line_methods : filter is_line_method all_io_methods = [IoWriteLine; IoWriteLineRaw; IoErrorLine; IoErrorLineRaw].
+Proof. exact io_line_methods_table. Qed.
+Print Assumptions io_line_methods.
+
+(* io.write_line(s) is io.write(s) followed by ONE line feed on the standard output, io.error_line(s) is io.error(s) followed
+   by ONE line feed on the error output: same success or failure, same formatter state, the other output untouched - on every
+   I/O whose output is not a decorated section, at any indentation, decorated or not *)
+Theorem io_write_line_is_write_plus_one_newline : forall st s,
+  (o_sec (io_out st) && o_on (io_out st) = false ->
+   io_write st IoWriteLine s = (do st1 <- io_write st IoWrite s; Ok (push_out st1 [NL]))) /\
+  (o_sec (io_err st) && o_on (io_err st) = false ->
+   io_write st IoErrorLine s = (do st1 <- io_write st IoError s; Ok (push_err st1 [NL]))).
+Proof. intros st s. split; [exact (io_write_line_is_write_nl st s)|exact (io_error_line_is_error_nl st s)]. Qed.
+Print Assumptions io_write_line_is_write_plus_one_newline.
+(* ... on the I/O of a decorated section (io.section() of a decorated I/O) write and write_line are one and the same call: the
+   section ends the line itself, once (section_write_line above gives the body) *)
+Theorem io_section_write_and_write_line_agree : forall st s,
+  (o_sec (io_out st) && o_on (io_out st) = true -> io_write st IoWrite s = io_write st IoWriteLine s) /\
+  (o_sec (io_err st) && o_on (io_err st) = true -> io_write st IoError s = io_write st IoErrorLine s).
+Proof. exact io_section_write_is_write_line. Qed.
+Print Assumptions io_section_write_and_write_line_agree.
+(* the raw line methods: exactly the text without its own trailing line feeds, then one line feed; never fail *)
+Theorem io_write_line_raw_is_text_plus_one_newline : forall st s,
+  io_write st IoWriteLineRaw s =
+    Ok {| io_out := with_buf (io_out st) (o_fmt (io_out st)) (o_buf (io_out st) ++ rstrip_nl s ++ [NL]); io_err := io_err st |} /\
+  io_write st IoErrorLineRaw s =
+    Ok {| io_out := io_out st; io_err := with_buf (io_err st) (o_fmt (io_err st)) (o_buf (io_err st) ++ rstrip_nl s ++ [NL]) |}.
+Proof. exact io_write_line_raw_exact. Qed.
+Print Assumptions io_write_line_raw_is_text_plus_one_newline.
+(* EVERY line-writing method of IO, on every I/O (sections included), whenever the call returns: the stream of the output the
+   method belongs to has grown by a body and one FINAL line feed, that output's indentation is what it was, the other output
+   is untouched *)
+Theorem io_line_methods_end_the_line : forall m st s st', is_line_method m = true -> io_write st m s = Ok st' ->
+  let t := fst (fst (io_delegate m)) in
+  (exists body, o_buf (out_of t st') = o_buf (out_of t st) ++ body ++ [NL]) /\
+  o_indent (out_of t st') = o_indent (out_of t st) /\ other_of t st' = other_of t st.
+Proof. exact io_line_method_shape. Qed.
+Print Assumptions io_line_methods_end_the_line.
+(* in the program model (indent_scopes, scopes_are_lexical above) a call of an IO method IS a write statement, and running it
+   is the call: the programs the driver runs hold IO-level calls, compiled by the model itself (run_C11IO) *)
+Theorem io_call_is_a_write_statement : forall m text,
+  (exists t wm, io_stmt m text = Some (SWrite t wm text)) /\
+  (forall stm st, io_stmt m text = Some stm ->
+     exec stm st = match io_write st m text with Ok st' => (st', false) | Err _ => (st, true) end).
+Proof. intros m text. split; [exact (io_stmt_total m text)|intros stm st; exact (io_stmt_is_io_write m text stm st)]. Qed.
+Print Assumptions io_call_is_a_write_statement.
+
+(* instances: an undecorated I/O at indentation 2; write_line "a\n" ends in two line feeds (the text's own and the one the
+   method adds), error_line_raw "b\n\n" in one; the other stream stays empty *)
+Definition io_plain : iost :=
+  let o := {| o_indent := 2; o_on := false; o_sec := false; o_fmt := {| f_kind := FPlain; f_styles := []; f_stack := [] |}; o_buf := [] |} in
+  {| io_out := o; io_err := o |}.
+Example io_line_instances :
+  (match io_write io_plain IoWriteLine [97; 10]%N with Ok st => o_buf (io_out st) = [32; 32; 97; 10; 10]%N /\ o_buf (io_err st) = [] | Err _ => False end) /\
+  (match io_write io_plain IoWrite [97; 10]%N with Ok st => o_buf (io_out st) = [32; 32; 97; 10]%N | Err _ => False end) /\
+  (match io_write io_plain IoErrorLineRaw [98; 10; 10]%N with Ok st => o_buf (io_err st) = [98; 10]%N /\ o_buf (io_out st) = [] | Err _ => False end) /\
+  o_sec (io_out io_plain) && o_on (io_out io_plain) = false /\ map is_line_method all_io_methods = [false; true; false; true; false; true; false; true].
+Proof. vm_compute. repeat split. Qed.
